@@ -757,6 +757,8 @@ func (w *World) Notify(chain string, tip uint32) {
 		if w.Cfg.RealLoops {
 			return // the real poll loop picks the new height up
 		}
+		// the body of the dispatcher loop of StartWatchingTxs for one new block
+		rw.VerifDispatchHeight(uint64(tip), 0)
 		rw.HandleCsvTx(uint64(tip))
 		return
 	}
